@@ -103,9 +103,44 @@ def detect(sid, tier, which):
     return out
 
 
+def ingest(pid, k, src_root='/tmp/wt-out'):
+    """Confirm the candidate src_root/<pid>/<k> and, if confirmed, keep it as seeded/<pid>-<k>/."""
+    cand = os.path.join(src_root, pid, str(k))
+    ok, res = confirm(cand)
+    print(json.dumps({'candidate': cand, 'confirmed': ok, 'details': res}, indent=1))
+    if not ok:
+        return False
+    dst = os.path.join(VERIF, 'seeded', '%s-%s' % (pid, k))
+    os.makedirs(dst, exist_ok=True)
+    for f in ('patch.diff', 'demo.py', 'notes.md'):
+        if os.path.exists(os.path.join(cand, f)):
+            shutil.copy(os.path.join(cand, f), os.path.join(dst, f))
+    for f in os.listdir(cand):      # auxiliary files of the demonstration
+        if f not in ('patch.diff', 'demo.py', 'notes.md') and os.path.isfile(os.path.join(cand, f)) and os.path.getsize(os.path.join(cand, f)) < 200000:
+            shutil.copy(os.path.join(cand, f), os.path.join(dst, f))
+    notes = open(os.path.join(cand, 'notes.md')).read() if os.path.exists(os.path.join(cand, 'notes.md')) else ''
+    head = sh(['git', '-C', REPO, 'log', '--format=%h', '-1']).stdout.strip()
+    meta = {
+        'property': pid,
+        'origin': 'independent sub-agent given only the property text and a scratch worktree',
+        'repo_commit': head,
+        'needs_to_manifest': notes.strip()[:1500],
+        'confirmed': {
+            'how': 'tools/seeded.py confirm: scratch worktree of /repo HEAD; demo.py passes before and fails after the patch; '
+                   'the repository suite gives the same result',
+            'suite_with_patch': res.get('suite_with_patch'), 'suite_baseline': res.get('suite_baseline'),
+            'demo_clean': res.get('demo_clean'), 'demo_patched': res.get('demo_patched'),
+        },
+    }
+    json.dump(meta, open(os.path.join(dst, 'meta.json'), 'w'), indent=1)
+    return True
+
+
 def main():
     if len(sys.argv) < 3:
         raise SystemExit(__doc__)
+    if sys.argv[1] == 'ingest':
+        sys.exit(0 if ingest(sys.argv[2], sys.argv[3]) else 1)
     if sys.argv[1] == 'confirm':
         ok, res = confirm(sys.argv[2])
         print(json.dumps({'confirmed': ok, 'details': res}, indent=1))
